@@ -238,6 +238,13 @@ theorem bytes_roundtrip (ops : List ((Int × Hist) × Bool)) (s : Series) (hwf :
     ∀ c ∈ s.chunks, Prom.HistChunk.decodeChunk (Prom.HistChunk.encodeChunk c) = some c :=
   Prom.HistChunk.series_bytes_roundtrip' ops s hwf hsm hrun
 
+/-- the same for float histograms (`SmallHF`: counts, sum and bucket values are 64-bit patterns, exponential schema,
+    encodable span lists over bucket indices inside ±2^40) -/
+theorem bytes_roundtrip_float (ops : List ((Int × Hist) × Bool)) (s : Series) (hwf : ∀ p ∈ ops, WFs p.1.2)
+    (hsm : ∀ p ∈ ops, Prom.HistChunk.SmallHF p.1) (hrun : runSeries ops Series.empty = .ok s) :
+    ∀ c ∈ s.chunks, Prom.HistChunk.decodeChunkF (Prom.HistChunk.encodeChunk c) = some c :=
+  Prom.HistChunk.series_bytes_roundtrip_float ops s hwf hsm hrun
+
 /-- `SmallH` is met by an ordinary histogram: schema 3, buckets {-2,-1,1} with counts 2,5,6 -/
 example : Prom.HistChunk.SmallH
     (1000, Hist.mk false .unknown 3 0 13 0 0x402a000000000000 [⟨-2, 2⟩, ⟨1, 1⟩] [] [2, 3, 1] [] []) := by
